@@ -19,6 +19,9 @@ def run(tier, seed, replay=None):
     from checks import reader_common
     reader_common.reader_init_merge(ck, pyload.module("digital_rf_hdf5", symbolic=False))
     reader_common.wiring(ck, symmod, ndirs=3)
+    from checks import pyinit
+    pyinit.add_py_init_params(ck)
+    ck.replayers["py.init."] = pyinit.replay_init_params
     ck.replayers["reader."] = replay_sessions
     ck.replayers["bounds."] = replay_sessions
     ck.replayers["session."] = replay_sessions
